@@ -260,7 +260,7 @@ def _candidates(scn: dict) -> Iterable[dict]:
         c = copy.deepcopy(scn)
         del c["device"]["replies"][k]
         yield c
-    for k in ("on_connect", "on_handshake", "tamper"):
+    for k in ("on_connect", "on_handshake"):
         if dev.get(k):
             for i in range(len(dev[k]) - 1, -1, -1):
                 c = copy.deepcopy(scn)
